@@ -1,4 +1,5 @@
 #!/bin/bash
+export VERIF_NO_PRUNE=1   # several trees are analysed over time / in parallel: keep their caches (tools/prune_cache.sh cleans up)
 # tools/nshow.sh <patch> <prop> — show the full report of one check under one patch (uses /repo; reverts)
 cd /verif; BK=$(mktemp -d); cp -r evidence $BK/
 git -C /repo apply $(realpath $1) || exit 2
